@@ -33,7 +33,7 @@ ASSUMPTIONS = ["same computation twice is compared bitwise (gradient at each ste
                "the step-local gradient check covers them"]
 PROBES = ["epochs_0", "epochs_ge2", "n_times_ge2", "validation_off", "optimizer_instance", "optimizer_class", "lazy_model", "dropout_model",
           "prev_hedge", "H2", "init_state", "ambient_no_grad", "entered_in_eval_mode", "second_fit_same_hedger", "param_equal_reference",
-          "step_local_grad", "stale_grad_at_entry"]
+          "step_local_grad", "stale_grad_at_entry", "same_optimizer_class_again"]
 
 
 class EventLog(list):
@@ -60,6 +60,12 @@ class RecCriterion(nn.Module):
 
 
 def make_rec_optimizer(base, events, **defaults):
+    """events: a one-element list holding the current EventLog (the class object is re-used by later fits of the run)"""
+    class _E:
+        def add(self, **kw):
+            return events[0].add(**kw)
+    events_ = _E()
+
     class Rec(base):
         constructed = []
 
@@ -70,15 +76,15 @@ def make_rec_optimizer(base, events, **defaults):
             Rec.constructed.append(self)
 
         def zero_grad(self, *a, **k):
-            events.add(ev="zero_grad", opt=id(self))
+            events_.add(ev="zero_grad", opt=id(self))
             return super().zero_grad(*a, **k)
 
         def step(self, closure=None):
             ps = [p for g in self.param_groups for p in g["params"]]
-            events.add(ev="step_begin", opt=id(self), params=[p.detach().clone() for p in ps],
-                       grads=[None if p.grad is None else p.grad.detach().clone() for p in ps])
+            events_.add(ev="step_begin", opt=id(self), params=[p.detach().clone() for p in ps],
+                        grads=[None if p.grad is None else p.grad.detach().clone() for p in ps])
             r = super().step(closure)
-            events.add(ev="step_end", opt=id(self), params=[p.detach().clone() for p in ps])
+            events_.add(ev="step_end", opt=id(self), params=[p.detach().clone() for p in ps])
             return r
 
     Rec.__name__ = "Rec" + base.__name__
@@ -224,7 +230,16 @@ def _fit_op(world, program, op, h, d, p0, mspec, hspec, stats, hist, seq):
     rec.events, rec.events_rng = events, True
     rec.recording = False
     base, defaults = OPTS[op["optimizer"]]
-    RecOpt = make_rec_optimizer(base, events, **defaults)
+    # the same optimiser CLASS object is passed again by later fits of this run (a user passing Adam twice)
+    cache = world.__dict__.setdefault("_rec_opt_classes", {})
+    if op["optimizer"] not in cache:
+        holder = [events]
+        cache[op["optimizer"]] = (make_rec_optimizer(base, holder, **defaults), holder)
+    else:
+        stats.probe("same_optimizer_class_again")
+    RecOpt, holder = cache[op["optimizer"]]
+    holder[0] = events
+    RecOpt.constructed.clear()
     supplied = None
     if op.get("default_optimizer"):
         opt_arg = None
